@@ -13,7 +13,7 @@ into a replay file (values of all nondet inputs, in call order), rebuilt
 natively against the real sources with ASan/UBSan and run; only what
 reproduces is printed as VIOLATION.
 """
-import sys, os, json, re, subprocess, time, shutil, resource, importlib, hashlib, glob
+import sys, os, threading, json, re, subprocess, time, shutil, resource, importlib, hashlib, glob
 from concurrent.futures import ThreadPoolExecutor
 
 ROOT = os.path.dirname(os.path.abspath(__file__))
@@ -315,7 +315,17 @@ def undefined_check(parsed):
     return [r for r in parsed["results"] if ".no-body." in r.get("property", "")]
 
 
+_HEAVY = threading.Semaphore(3)   # queries marked heavy (>10 GB of solver memory each) run at most three at a time
+
+
 def run_query(pid, q, keep=False):
+    if getattr(q, "heavy", False):
+        with _HEAVY:
+            return _run_query(pid, q, keep)
+    return _run_query(pid, q, keep)
+
+
+def _run_query(pid, q, keep=False):
     """Full pipeline for one query. Returns a result dict."""
     wd = os.path.join(BUILD, pid, re.sub(r"[^A-Za-z0-9_.-]", "_", q.name))
     shutil.rmtree(wd, ignore_errors=True)
